@@ -37,7 +37,7 @@ class Rng:
 
 
 # (w, n) configurations of the harness dispatch table (harness/src/lib.rs for_configs!)
-CONFIGS_ALL = [(8, 1), (8, 2), (8, 3), (8, 4), (8, 5), (8, 8), (8, 17),
+CONFIGS_ALL = [(8, 1), (8, 2), (8, 3), (8, 4), (8, 5), (8, 8), (8, 17), (8, 33),
                (16, 1), (16, 2), (16, 3), (16, 6),
                (32, 1), (32, 2), (32, 3), (32, 10),
                (64, 1), (64, 2), (64, 3), (64, 5), (64, 17), (64, 128)]
